@@ -226,7 +226,8 @@ pub fn exec(func: &str, a: &mut Args) -> String {
             // auxiliary scalars: near-touching indicators and whether pos12 inverts exactly (then both orders see the same data)
             let dist = query::distance(&p1, &*g1, &p2, &*g2).unwrap_or(f64::NAN);
             let depth = match query::contact(&p1, &*g1, &p2, &*g2, 0.0) { Ok(Some(c)) => c.dist, _ => f64::NAN };
-            let rt = d3::hiso(&p2.inv_mul(&p1).inverse()) == d3::hiso(&pos12);
+            let pos21 = p2.inv_mul(&p1);
+            let rt = d3::hiso(&pos21.inverse()) == d3::hiso(&pos12) && d3::hiso(&pos12.inverse()) == d3::hiso(&pos21);
             format!("{} ; {} ; {} ; {} ; {} {} {}", run(&p1, &*g1, &p2, &*g2), run(&p2, &*g2, &p1, &*g1), run(&q1, &*g1, &q2, &*g2), dform, ff(dist), ff(depth), b(rt))
         }
         // ---- oracle-only shape casts: s1 pos1 vel1 s2 pos2 vel2 g target_distance stop_at_penetration max_toi
@@ -245,7 +246,9 @@ pub fn exec(func: &str, a: &mut Args) -> String {
             let cc = fh(query::cast_shapes(&(g * p1), &(g.rotation * v1), &*g1, &(g * p2), &(g.rotation * v2), &*g2, opts), &*g1, &*g2);
             let pos12 = p1.inv_mul(&p2); let vel12 = p1.inverse_transform_vector(&(v2 - v1));
             let dd = fh(DefaultQueryDispatcher.cast_shapes(&pos12, &vel12, &*g1, &*g2, opts), &*g1, &*g2);
-            format!("{} ; {} ; {} ; {}", aa, bb, cc, dd)
+            // distance at the start of the motion: tells the oracle whether the cast starts in contact (a tie)
+            let dist0 = query::distance(&p1, &*g1, &p2, &*g2).unwrap_or(f64::NAN);
+            format!("{} ; {} ; {} ; {} ; {}", aa, bb, cc, dd, ff(dist0))
         }
         f if f.contains("2_") => two::exec(f, a),
         _ => "nofn".into(),
@@ -692,7 +695,8 @@ pub mod two {
                 };
                 let dist = query::distance(&p1, &*g1, &p2, &*g2).unwrap_or(f64::NAN);
                 let depth = match query::contact(&p1, &*g1, &p2, &*g2, 0.0) { Ok(Some(c)) => c.dist, _ => f64::NAN };
-                let rt = d2::hiso(&p2.inv_mul(&p1).inverse()) == d2::hiso(&pos12);
+                let pos21 = p2.inv_mul(&p1);
+                let rt = d2::hiso(&pos21.inverse()) == d2::hiso(&pos12) && d2::hiso(&pos12.inverse()) == d2::hiso(&pos21);
                 format!("{} ; {} ; {} ; {} ; {} {} {}", run(&p1, &*g1, &p2, &*g2), run(&p2, &*g2, &p1, &*g1), run(&q1, &*g1, &q2, &*g2), dform, ff(dist), ff(depth), b(rt))
             }
             "o2_cast" => {
@@ -711,7 +715,8 @@ pub mod two {
                 let cc = fh(query::cast_shapes(&(g * p1), &(g.rotation * v1), &*g1, &(g * p2), &(g.rotation * v2), &*g2, opts), &*g1, &*g2);
                 let pos12 = p1.inv_mul(&p2); let vel12 = p1.inverse_transform_vector(&(v2 - v1));
                 let dd = fh(DefaultQueryDispatcher.cast_shapes(&pos12, &vel12, &*g1, &*g2, opts), &*g1, &*g2);
-                format!("{} ; {} ; {} ; {}", aa, bb, cc, dd)
+                let dist0 = query::distance(&p1, &*g1, &p2, &*g2).unwrap_or(f64::NAN);
+                format!("{} ; {} ; {} ; {} ; {}", aa, bb, cc, dd, ff(dist0))
             }
             _ => "nofn".into(),
         }
